@@ -12,8 +12,8 @@ RULE = ('cases = encodable field values (leaf kinds x boundary sets, the '
         '32 chains, wide tables, seeded random nests) wrapped as table, '
         'array and bare value; non-trivial = encoder returned bytes and the '
         'decoder was run on them; distinct = digest of (wrapping, value)')
-ASSUMPTIONS = ['floats limited to values whose single-precision rounding is '
-               'finite, +-inf, nan', 'keys <=128 chars and <=255 UTF-8 bytes',
+ASSUMPTIONS = ['finite floats beyond the single-precision range must be '
+               'accepted and come back equal (tag d)', 'keys <=128 chars and <=255 UTF-8 bytes',
                'datetimes denote instants in [1970, 2106)']
 
 
@@ -163,6 +163,16 @@ def run_case(case, rec):
                               % (name, common.hexs(e2.value, 80) if e2.ok
                                  else e2.describe(), ctx,
                                  common.hexs(data, 80)), case)
+                return
+            import decimal as _dm
+            with _dm.localcontext(ctx):
+                d2 = call(dfn, data)
+            if not d2.ok or diff.first_difference(exp, d2.value[1]):
+                rec.violation('decoding-depends-on-decimal-context',
+                              'decode.%s of the same bytes under decimal '
+                              'context %r gives %s' % (
+                                  name, ctx, d2.value[1] if d2.ok
+                                  else d2.describe()), case)
                 return
         rec.count('decimal_contexts_compared', len(common.narrow_contexts()))
     rec.count('roundtrips_ok')
